@@ -405,6 +405,16 @@ fn judge_file_case(desc: &str, prog: Option<Vec<u8>>, lib: Option<Vec<u8>>, as_d
         rep.note = o.show();
         s.budget = None;
         sanity(&mut s, &mut rep, "eval_file");
+        // the interpreter goes on with ordinary derived forms, and a new interpreter can be made on this thread
+        match s.eval("(cond ((car '(#f)) 1) ((null? '()) 2) (else 3))") {
+            Outcome::Value(SVal::Num(crate::sut::SNum::Int(2))) | Outcome::Error(_) => {}
+            Outcome::Panic { site, msg } => rep.fail(sut::panic_sig(&site, &msg), "a cond form after the file panicked"),
+            other => rep.fail("derived-form-broken-after-file", format!("(cond ((car '(#f)) 1) ((null? '()) 2) (else 3)) gave {}", other.show())),
+        }
+        match Session::stdlib() {
+            Ok(mut fresh) => sanity(&mut fresh, &mut rep, "creating a new interpreter after the file"),
+            Err((site, msg)) => rep.fail(format!("construct-{}", sut::panic_sig(&site, &msg)), "a new interpreter could not be created after the file was run"),
+        }
         rep.nontrivial = true;
         let _ = std::fs::remove_dir_all(&d);
         rep
@@ -553,6 +563,38 @@ pub fn run(ctx: &Ctx) {
         rep
     });
 
+    // (4b) whole processes: programs whose values are awkward to print, run by the built binary; the process must end
+    // with a status of its own (0 or the error status), never by a signal or a panic
+    if !ctx.skip_sub("process") && ctx.replay.is_none() {
+        let head = "(import (scheme base) (scheme write))\n";
+        let programs: Vec<(&str, String)> = vec![
+            ("a vector stored into itself, displayed", format!("{}(define v (vector 1 2))\n(vector-set! v 0 v)\n(display v)\n", head)),
+            ("a cycle through two vectors, displayed", format!("{}(define a (vector 1 0))\n(define b (vector 2 a))\n(vector-set! a 1 b)\n(display a)\n(display b)\n", head)),
+            ("a cycle through three vectors and a list, displayed", format!("{}(define a (vector 0))\n(define b (vector (list 1 a)))\n(define c (vector b))\n(vector-set! a 0 c)\n(display (list a b c))\n", head)),
+            ("a cycle through two vectors in an error message", format!("{}(define a (vector 1 0))\n(define b (vector 2 a))\n(vector-set! a 1 b)\n(car a)\n", head)),
+            ("a cycle through two vectors as a wrong argument count", format!("{}(define a (vector 1 0))\n(define b (vector 2 a))\n(vector-set! a 1 b)\n((lambda (x) x) a b)\n", head)),
+            ("the same empty vector displayed twice", format!("{}(define e (vector))\n(display (vector 1 e (list e 2)))\n(display e)\n", head)),
+        ];
+        for (what, text) in programs {
+            let dir = crate::checks::c17::scratch("c07p");
+            let _ = std::fs::create_dir_all(&dir);
+            let file = dir.join("p.scm");
+            std::fs::write(&file, &text).unwrap();
+            let r = crate::checks::c17::run_binary(&[file.to_str().unwrap()], &dir, None);
+            let _ = std::fs::remove_dir_all(&dir);
+            let mut rep = Report::new(format!("process: {}\n{}", what, text));
+            rep.nontrivial = true;
+            rep.note = format!("exit {:?}; stdout {:?}; stderr {:?}", r.code, r.stdout.chars().take(120).collect::<String>(), r.stderr.chars().take(160).collect::<String>());
+            match r.code {
+                Some(0) | Some(255) if !r.stderr.contains("panicked at") => {}
+                Some(101) => rep.fail("process-panicked", format!("exit status 101: {}", r.stderr.chars().take(200).collect::<String>())),
+                None => rep.fail("process-abort:stack-overflow-in-display", format!("the process was ended by a signal: {}", r.stderr.chars().take(200).collect::<String>())),
+                other => rep.fail("process-unexpected-status", format!("{:?}", other)),
+            }
+            ctx_record_text(ctx, "process", &rep);
+        }
+    }
+
     // (5) files
     if !ctx.skip_sub("files") && ctx.replay.is_none() {
         let lib_ok = b"(define-library (my lib) (export a) (begin (define a 1)))".to_vec();
@@ -573,6 +615,12 @@ pub fn run(ctx: &Ctx) {
             ("library body faults", Some(prog_ok.clone()), Some(b"(define-library (my lib) (export a) (begin (define a (car '()))))".to_vec()), false),
             ("library exports unbound", Some(prog_ok.clone()), Some(b"(define-library (my lib) (export zz))".to_vec()), false),
             ("library with NUL bytes", Some(prog_ok.clone()), Some(b"(define-library (my lib)\0 (export a) (begin (define a 1)))".to_vec()), false),
+            (
+                "library with a private macro named like a bundled one",
+                Some(b"(import (scheme base) (my lib))\n(define b (cond ((= a 1) 10) ((= a 2) 20) (else 30)))\n".to_vec()),
+                Some(b"(define-library (my lib) (import (scheme base)) (export a) (begin (define-syntax cond (syntax-rules () ((cond t e) (if t e #f)))) (define-syntax unless (syntax-rules () ((unless c) c))) (define a (cond #t 1))))".to_vec()),
+                false,
+            ),
         ];
         for (d, p, l, dir) in cases {
             let rep = judge_file_case(d, p, l, dir);
